@@ -12,7 +12,9 @@ MODULES = {
     "C02": "harness.rewrite",
     "C03": "harness.rewrite",
     "C04": "harness.rewrite",
+    "C05": "harness.rewrite",
     "C06": "harness.rewrite",
+    "C08": "harness.rewrite",
     "C14": "harness.dwarf",
     "C15": "harness.cfi_eval",
 }
